@@ -134,6 +134,10 @@ def uf(name, *args):
     raise SkipCase()
 
 
+def subst(term, pairs):
+    raise SkipCase()
+
+
 def ufb(name, *args):
     raise SkipCase()
 
